@@ -468,6 +468,64 @@ def big_track_cases(ctx):
     return n
 
 
+def failed_save_cases(ctx):
+    """A save() to a path fails half way (a message that cannot be stored, in the first / a later track);
+    the caller keeps the exception for a while, saves a valid file to the same path, lets go of the
+    exception, loads: the path holds exactly the valid file.  Also with rejected edits before the save."""
+    import gc
+    from mido import Message, MetaMessage
+    from .. import abuse
+    n = 0
+    for bad_track in (0, 1, 2):
+        for bad in ('float-time', 'realtime', 'negative-time'):
+            for keep in ('kept-until-after-second-save', 'dropped-at-once'):
+                case = {'kind': 'failed-save', 'bad_track': bad_track, 'bad': bad, 'exception': keep}
+                fd, path = tempfile.mkstemp(suffix='.mid', prefix='vmon-c07-fs-')
+                os.close(fd)
+                try:
+                    first = MidiFile(type=1, ticks_per_beat=96)
+                    for ti in range(3):
+                        tr = MidiTrack([MetaMessage('track_name', name=f'Piano {ti}', time=0)] +
+                                       [Message('note_on', note=(ti * 7 + i) % 128, time=i % 5) for i in range(600)])
+                        if ti == bad_track:
+                            if bad == 'float-time':
+                                tr.append(Message('note_on', time=0).copy(skip_checks=True, time=0.5))
+                            elif bad == 'realtime':
+                                tr.append(Message('clock', time=1))
+                            else:
+                                tr.append(Message('note_on', time=0).copy(skip_checks=True, time=-1))
+                        first.tracks.append(tr)
+                    held = None
+                    try:
+                        first.save(path)
+                        ctx.check('unstorable => ValueError', False, 'failed-save:saved-unstorable', case, None)
+                    except Exception as exc:
+                        held = exc if keep.startswith('kept') else None
+                    second = MidiFile(type=1, ticks_per_beat=480)
+                    second.tracks.append(MidiTrack([MetaMessage('track_name', name='Organ', time=0), Message('note_on', note=1, time=3)]))
+                    for m in second.tracks[0]:
+                        abuse.failed_edits(m)
+                    second.save(path)
+                    want = save_bytes(second)
+                    held = None
+                    gc.collect()
+                    with open(path, 'rb') as f:
+                        on_disk = f.read()
+                    ctx.check('tracks == fold_eot(original)', on_disk == want, 'failed-save:path-holds-something-else', case,
+                              lambda: {'on_disk': on_disk[:60].hex(), 'len': len(on_disk), 'want': want[:60].hex(), 'want_len': len(want)})
+                    back = MidiFile(path)
+                    ctx.check('tracks == fold_eot(original)', len(back.tracks) == 1 and back.tracks[0][0].name == 'Organ'
+                              and back.ticks_per_beat == 480, 'failed-save:loads-as-something-else', case,
+                              lambda: {'tracks': len(back.tracks), 'first': repr(back.tracks[0][:1])})
+                except Exception as exc:
+                    ctx.fail('tracks == fold_eot(original)', f'failed-save:{type(exc).__name__}', case, f'{type(exc).__name__}: {exc}')
+                finally:
+                    if os.path.exists(path):
+                        os.remove(path)
+                n += 1
+    return n
+
+
 def run(ctx):
     n = 0
     nr = 120 if ctx.tier == 'quick' else 6000
@@ -489,6 +547,11 @@ def run(ctx):
         ctx.extra('unstorable_table_cases', k)
         n += k
         charset_sequence(ctx)
+    if ctx.shard == 2 % ctx.nshards:
+        k = failed_save_cases(ctx)
+        ctx.nontrivial(None, k)
+        ctx.extra('failed_save_cases', k)
+        n += k
     if ctx.shard == 1 % ctx.nshards:
         k = big_track_cases(ctx)
         ctx.nontrivial(None, k)
@@ -522,5 +585,7 @@ def replay(ctx, case):
         charset_sequence(ctx)
     elif k == 'big-track':
         big_track_cases(ctx)
+    elif k == 'failed-save':
+        failed_save_cases(ctx)
     else:
         unstorable_cases(ctx)
